@@ -228,27 +228,25 @@ Definition model_neg (a : value) : f64 := f64_sub f64_zero (model_to_number a).
 Definition arg_or_ctx (ctx_sv : str) (args : list value) : value :=
   match args with [] => VNodes [ctx_sv] | a :: _ => a end.
 
-Definition fn_name (s : list N) : str := s.
-
 (** names as code points *)
-Definition n_string : str := [115;116;114;105;110;103].
-Definition n_concat : str := [99;111;110;99;97;116].
-Definition n_starts_with : str := [115;116;97;114;116;115;45;119;105;116;104].
-Definition n_contains : str := [99;111;110;116;97;105;110;115].
-Definition n_substring_before : str := [115;117;98;115;116;114;105;110;103;45;98;101;102;111;114;101].
-Definition n_substring_after : str := [115;117;98;115;116;114;105;110;103;45;97;102;116;101;114].
-Definition n_substring : str := [115;117;98;115;116;114;105;110;103].
-Definition n_string_length : str := [115;116;114;105;110;103;45;108;101;110;103;116;104].
-Definition n_normalize_space : str := [110;111;114;109;97;108;105;122;101;45;115;112;97;99;101].
-Definition n_translate : str := [116;114;97;110;115;108;97;116;101].
-Definition n_boolean : str := [98;111;111;108;101;97;110].
-Definition n_not : str := [110;111;116].
-Definition n_true : str := [116;114;117;101].
-Definition n_false : str := [102;97;108;115;101].
-Definition n_number : str := [110;117;109;98;101;114].
-Definition n_floor : str := [102;108;111;111;114].
-Definition n_ceiling : str := [99;101;105;108;105;110;103].
-Definition n_round : str := [114;111;117;110;100].
+Definition fn_string : str := [115;116;114;105;110;103].
+Definition fn_concat : str := [99;111;110;99;97;116].
+Definition fn_starts_with : str := [115;116;97;114;116;115;45;119;105;116;104].
+Definition fn_contains : str := [99;111;110;116;97;105;110;115].
+Definition fn_substring_before : str := [115;117;98;115;116;114;105;110;103;45;98;101;102;111;114;101].
+Definition fn_substring_after : str := [115;117;98;115;116;114;105;110;103;45;97;102;116;101;114].
+Definition fn_substring : str := [115;117;98;115;116;114;105;110;103].
+Definition fn_string_length : str := [115;116;114;105;110;103;45;108;101;110;103;116;104].
+Definition fn_normalize_space : str := [110;111;114;109;97;108;105;122;101;45;115;112;97;99;101].
+Definition fn_translate : str := [116;114;97;110;115;108;97;116;101].
+Definition fn_boolean : str := [98;111;111;108;101;97;110].
+Definition fn_not : str := [110;111;116].
+Definition fn_true : str := [116;114;117;101].
+Definition fn_false : str := [102;97;108;115;101].
+Definition fn_number : str := [110;117;109;98;101;114].
+Definition fn_floor : str := [102;108;111;111;114].
+Definition fn_ceiling : str := [99;101;105;108;105;110;103].
+Definition fn_round : str := [114;111;117;110;100].
 
 (** [substring]: [round() as usize - 1] (debug profile: underflow panics), byte offsets through
     [split_at] (panics past the end or inside a character) -- D30 as found *)
@@ -269,61 +267,61 @@ Definition substring_model (v : str) (a : f64) (c : option f64) : fres :=
        end.
 
 Definition scalar_fn (ctx_sv : str) (name : str) (args : list value) : fres :=
-  if str_eqb name n_string then ROk (VStr (model_to_string (arg_or_ctx ctx_sv args)))
-  else if str_eqb name n_concat then ROk (VStr (concat (map model_to_string args)))
-  else if str_eqb name n_starts_with then
+  if str_eqb name fn_string then ROk (VStr (model_to_string (arg_or_ctx ctx_sv args)))
+  else if str_eqb name fn_concat then ROk (VStr (concat (map model_to_string args)))
+  else if str_eqb name fn_starts_with then
     match args with
     | a :: b :: _ => ROk (VBool (starts_with (model_to_string a) (model_to_string b)))
     | _ => RPanic end
-  else if str_eqb name n_contains then
+  else if str_eqb name fn_contains then
     match args with
     | a :: b :: _ => ROk (VBool (contains (model_to_string a) (model_to_string b)))
     | _ => RPanic end
-  else if str_eqb name n_substring_before then
+  else if str_eqb name fn_substring_before then
     match args with
     | a :: b :: _ => ROk (VStr (match split_once (model_to_string a) (model_to_string b) with
                                 | Some (x, _) => x | None => [] end))
     | _ => RPanic end
-  else if str_eqb name n_substring_after then
+  else if str_eqb name fn_substring_after then
     match args with
     | a :: b :: _ => ROk (VStr (match split_once (model_to_string a) (model_to_string b) with
                                 | Some (_, y) => y | None => [] end))
     | _ => RPanic end
-  else if str_eqb name n_substring then
+  else if str_eqb name fn_substring then
     match args with
     | a :: b :: rest =>
         substring_model (model_to_string a) (model_to_number b)
           (match rest with c :: _ => Some (model_to_number c) | [] => None end)
     | _ => RPanic end
-  else if str_eqb name n_string_length then
+  else if str_eqb name fn_string_length then
     ROk (VNum (f64_of_N (byte_len (model_to_string (arg_or_ctx ctx_sv args)))))
-  else if str_eqb name n_normalize_space then
+  else if str_eqb name fn_normalize_space then
     ROk (VStr (normalize_space (model_to_string (arg_or_ctx ctx_sv args))))
-  else if str_eqb name n_translate then
+  else if str_eqb name fn_translate then
     match args with
     | a :: b :: c :: _ => ROk (VStr (translate (model_to_string a) (model_to_string b) (model_to_string c)))
     | _ => RPanic end
-  else if str_eqb name n_boolean then
+  else if str_eqb name fn_boolean then
     match args with a :: _ => ROk (VBool (model_to_bool a)) | _ => RPanic end
-  else if str_eqb name n_not then
+  else if str_eqb name fn_not then
     match args with a :: _ => ROk (VBool (negb (model_to_bool a))) | _ => RPanic end
-  else if str_eqb name n_true then ROk (VBool true)
-  else if str_eqb name n_false then ROk (VBool false)
-  else if str_eqb name n_number then ROk (VNum (model_to_number (arg_or_ctx ctx_sv args)))
-  else if str_eqb name n_floor then
+  else if str_eqb name fn_true then ROk (VBool true)
+  else if str_eqb name fn_false then ROk (VBool false)
+  else if str_eqb name fn_number then ROk (VNum (model_to_number (arg_or_ctx ctx_sv args)))
+  else if str_eqb name fn_floor then
     match args with a :: _ => ROk (VNum (f64_floor (model_to_number a))) | _ => RPanic end
-  else if str_eqb name n_ceiling then
+  else if str_eqb name fn_ceiling then
     match args with a :: _ => ROk (VNum (f64_ceil (model_to_number a))) | _ => RPanic end
-  else if str_eqb name n_round then
+  else if str_eqb name fn_round then
     match args with a :: _ => ROk (VNum (f64_round_away (model_to_number a))) | _ => RPanic end
   else RNotFoundFunction.
 
 (** the functions [scalar_fn] answers, with the inclusive arity bounds of [func::table()]
     ([None] = unbounded) *)
 Definition scalar_table : list (str * N * option N) :=
-  [ (n_string, 0, Some 1); (n_concat, 2, None); (n_starts_with, 2, Some 2);
-    (n_contains, 2, Some 2); (n_substring_before, 2, Some 2); (n_substring_after, 2, Some 2);
-    (n_substring, 2, Some 3); (n_string_length, 0, Some 1); (n_normalize_space, 0, Some 1);
-    (n_translate, 3, Some 3); (n_boolean, 1, Some 1); (n_not, 1, Some 1); (n_true, 0, Some 0);
-    (n_false, 0, Some 0); (n_number, 0, Some 1); (n_floor, 1, Some 1); (n_ceiling, 1, Some 1);
-    (n_round, 1, Some 1) ].
+  [ (fn_string, 0, Some 1); (fn_concat, 2, None); (fn_starts_with, 2, Some 2);
+    (fn_contains, 2, Some 2); (fn_substring_before, 2, Some 2); (fn_substring_after, 2, Some 2);
+    (fn_substring, 2, Some 3); (fn_string_length, 0, Some 1); (fn_normalize_space, 0, Some 1);
+    (fn_translate, 3, Some 3); (fn_boolean, 1, Some 1); (fn_not, 1, Some 1); (fn_true, 0, Some 0);
+    (fn_false, 0, Some 0); (fn_number, 0, Some 1); (fn_floor, 1, Some 1); (fn_ceiling, 1, Some 1);
+    (fn_round, 1, Some 1) ].
